@@ -365,11 +365,11 @@ def run(ctx):
     for _ in range(60 if not thorough else 1500):
         blocks.append(("rand 1", random_seq(rng)))
     nseq = len(blocks)
-    budget, bound = (120, 2) if not thorough else (4000, 3)
+    budget, bound = (250, 2) if not thorough else (4000, 3)
     for sc in CORE:
         blocks.append(("dfs %d %d" % (budget, bound), sc))
     conc = []
-    for _ in range(450 if not thorough else 12000):
+    for _ in range(700 if not thorough else 12000):
         sc = random_concurrent(rng)
         pol = rng.choice(["pct %d 2 40", "pct %d 3 60", "rand %d", "rand %d", "pct %d 1 30"]) % rng.randrange(1, 10 ** 6)
         conc.append((pol, sc))
@@ -385,7 +385,8 @@ def run(ctx):
     # 3. what a serialising scheduler cannot see: plain (non-atomic) accesses to the counter
     scan = [b for b in conc if any(" r" in ln for ln in b[1])][: (150 if not thorough else 2500)]
     scan += [("pct %d 2 40" % (i + 1), sc) for i, sc in enumerate(CORE)]
-    pipeline.race_scan(ctx, HARNESS, HARNESS + ".c", scan)
+    if not ctx.violations:      # (a tree already refuted is not scanned again on a second build)
+        pipeline.race_scan(ctx, HARNESS, HARNESS + ".c", scan)
     ctx.evaluations += n
     ctx.distinct_extra += max(0, n - len(blocks))
     ctx.extra["executions"] = n
